@@ -153,6 +153,63 @@ def run(pid, tier, seed, a, t0):
         items.append(Item(o.oid, "proved", st, o.seconds, o.detail, o.backend, o.lineno, o.desc,
                           contract=getattr(o, "contract", None), obligation=o))
 
+    # ------------------------------------------------------------- 4. bounded stand-ins
+    bounded = []
+    if not a.no_bounded:
+        budget = P.get("fuzz_budget", {"quick": 6, "thorough": 40})[tier]
+        import concurrent.futures as cf
+        jobs = []
+        with cf.ThreadPoolExecutor(max_workers=8) as pool:
+            for c in cons:
+                if (c.native or {}).get("skip"):
+                    continue
+                jobs.append((c, pool.submit(replay.fuzz, c, seed, 10 ** 9, budget, (c.native or {}).get("fuzz_jit", False))))
+            extra = []
+            for name, opts in P.get("bounded", []):
+                b = opts.get(tier, opts.get("quick", 10))
+                extra.append((name, pool.submit(replay.api_standin, name, seed, b, tier, opts.get("jit", False))))
+            for c, fut in jobs:
+                try:
+                    r = fut.result()
+                except Exception as e:
+                    print("CHECKER-ERROR bounded stand-in for %s crashed: %s" % (c.key, e))
+                    return 3
+                iid = "bounded:%s" % c.key
+                if r["status"] == "fail":
+                    items.append(Item(iid, "bounded", "failed", detail="clause %s: %s" % (r["clause"], json.dumps(r.get("info"))[:600]),
+                                      replay={"contract": c.key, "args": r["args"], "clause": r["clause"], "native": r.get("info"),
+                                              "jit": False}, contract=c, stats=r["stats"]))
+                else:
+                    items.append(Item(iid, "bounded", "ok", r.get("wall_s", 0), stats=dict(r["stats"], samples=r["samples"]), contract=c))
+            for name, fut in extra:
+                try:
+                    r = fut.result()
+                except Exception as e:
+                    traceback.print_exc()
+                    print("CHECKER-ERROR bounded stand-in %s crashed: %s" % (name, e))
+                    return 3
+                if r["status"] == "error":
+                    print("CHECKER-ERROR bounded stand-in %s crashed:\n%s" % (name, r["error"]))
+                    return 3
+                iid = "bounded-api:%s" % name
+                stats = {"evaluations": r.get("evaluations", 0), "distinct": r.get("distinct", 0), "samples": r.get("samples", []),
+                         "bound": r.get("bound", ""), "exhaustive": r.get("exhaustive", False)}
+                if r["status"] == "fail":
+                    items.append(Item(iid, "bounded", "failed", r.get("wall_s", 0), detail=r["failure"][:1500], stats=stats,
+                                      replay={"kind": "api", "standin": name, "args": r["case"], "failure": r["failure"]}))
+                else:
+                    items.append(Item(iid, "bounded", "ok", r.get("wall_s", 0), stats=stats))
+
+    # reachability of preconditions: a concrete native input that satisfies every `requires` is a witness
+    for it in items:
+        if it.obligation is not None and it.obligation.expect_sat and it.status == "unknown" and it.contract is not None:
+            fz = [i for i in items if i.iid == "bounded:%s" % it.contract.key]
+            if fz and fz[0].stats.get("evaluations", 0) - fz[0].stats.get("skip", 0) > 0:
+                it.status = "ok"
+                it.backend = "native-witness"
+                it.detail += " | satisfiable: %d concrete inputs passed every requires in the bounded run" % (
+                    fz[0].stats["evaluations"] - fz[0].stats["skip"])
+
     # ------------------------------------------------------------- ledger
     def clause_kind(iid):
         return any((":%s:" % k) in iid for k in CLAUSE_KINDS)
@@ -171,43 +228,6 @@ def run(pid, tier, seed, a, t0):
             if any(c.key == fnkey for c, _ in structural):
                 continue      # reported once, as structural
             items.append(Item(m, "proved", "failed", detail="obligation of the committed ledger was not generated from the current source (not-generated)"))
-
-    # ------------------------------------------------------------- 4. bounded stand-ins
-    bounded = []
-    if not a.no_bounded:
-        budget = P.get("fuzz_budget", {"quick": 6, "thorough": 40})[tier]
-        import concurrent.futures as cf
-        jobs = []
-        with cf.ThreadPoolExecutor(max_workers=8) as pool:
-            for c in cons:
-                if (c.native or {}).get("skip"):
-                    continue
-                jobs.append((c, pool.submit(replay.fuzz, c, seed, 10 ** 9, budget, (c.native or {}).get("fuzz_jit", False))))
-            extra = []
-            for name, modname, fname in P.get("bounded", []):
-                fn = getattr(importlib.import_module(modname), fname)
-                extra.append((name, pool.submit(fn, tier, seed)))
-            for c, fut in jobs:
-                try:
-                    r = fut.result()
-                except Exception as e:
-                    print("CHECKER-ERROR bounded stand-in for %s crashed: %s" % (c.key, e))
-                    return 3
-                iid = "bounded:%s" % c.key
-                if r["status"] == "fail":
-                    items.append(Item(iid, "bounded", "failed", detail="clause %s: %s" % (r["clause"], json.dumps(r.get("info"))[:600]),
-                                      replay={"contract": c.key, "args": r["args"], "clause": r["clause"], "native": r.get("info"),
-                                              "jit": False}, contract=c, stats=r["stats"]))
-                else:
-                    items.append(Item(iid, "bounded", "ok", r.get("wall_s", 0), stats=dict(r["stats"], samples=r["samples"]), contract=c))
-            for name, fut in extra:
-                try:
-                    rs = fut.result()
-                except Exception as e:
-                    traceback.print_exc()
-                    print("CHECKER-ERROR bounded stand-in %s crashed: %s" % (name, e))
-                    return 3
-                items.extend(rs)
 
     # ------------------------------------------------------------- 5. failures -> replay search
     findings = load_findings()
